@@ -175,7 +175,11 @@ pub fn run_all(thorough: bool) -> (u64, u64, Vec<(String, String, serde_json::Va
             viols.push((format!("e2e-reference {proto:?}"), format!("the single-protocol server did not answer the unfragmented request as expected: {reference:?}"), serde_json::json!({"engine":"c08-e2e","proto":format!("{proto:?}"),"post":post,"server":"single","chunks":[]})));
             continue;
         }
-        let results = crate::evidence::par_map(comps.len(), crate::evidence::n_threads(), |i| run_one(proto, post, Srv::Auto, &comps[i]));
+        let results = crate::evidence::par_map(comps.len(), crate::evidence::n_threads(), |i| {
+            let (ps, ch) = (format!("{proto:?}"), comps[i].clone());
+            let _g = crate::evidence::watchdog::enter(move || serde_json::json!({"engine":"c08-e2e","proto":ps,"post":post,"server":"auto","chunks":ch}));
+            run_one(proto, post, Srv::Auto, &comps[i])
+        });
         for (i, got) in results.into_iter().enumerate() {
             n += 1;
             distinct.insert(format!("{proto:?}|{post}|{:?}|{}", got.response.as_ref().map(|r| r.as_ref().map(|x| x.status).map_err(|e| e.clone())), comps[i].len()));
